@@ -152,6 +152,21 @@ func initZZ() {
 		}
 		return n
 	})
+	Z("SetFile", func(fr *frame, a []value) value {
+		if fr.e.files == nil {
+			fr.e.files = map[string]string{}
+		}
+		fr.e.files[strArg(a[0])] = strArg(a[1])
+		return a[0]
+	})
+	Z("CaptureStdout", func(fr *frame, a []value) value {
+		e := fr.e
+		start := len(e.stdout)
+		e.call(fr, 0, a[0], nil)
+		out := strings.Join(e.stdout[start:], "")
+		e.stdout = e.stdout[:start]
+		return out
+	})
 	Z("EventText", func(fr *frame, a []value) value {
 		kind := strArg(a[0])
 		for _, ev := range fr.e.events {
